@@ -422,6 +422,28 @@ func lzmaWCases(r *core.Run, prop string) []LZWCase {
 		}
 		rec(nil)
 	}
+	// (e2) the same contract with an announced size above the dictionary capacity (9000 > 4096):
+	// whatever counts the accepted bytes must not be capped by the window. All sequences of <=3
+	// writes with lengths from {1, 4096, 4904, 8999, 9000, 9001} then Close.
+	{
+		const S = 9000
+		ls := []int{1, 4096, S - 4096, S - 1, S, S + 1}
+		var rec func(pref []int)
+		rec = func(pref []int) {
+			if len(pref) > 0 {
+				for _, eos := range []bool{false, true} {
+					add(LZWCase{Cfg: LZCfg{DictCap: 4096, SizeInHeader: true, Size: S, EOS: eos}, Shape: []Seg{{K: "T", Seed: 6, N: 3 * (S + 1)}}, Parts: append([]int{}, pref...), Hist: true})
+				}
+			}
+			if len(pref) == 3 {
+				return
+			}
+			for _, l := range ls {
+				rec(append(pref, l))
+			}
+		}
+		rec(nil)
+	}
 	return cases
 }
 
@@ -437,7 +459,7 @@ func runLZW(r *core.Run, prop string) {
 }
 
 func runC06(r *core.Run) {
-	r.Rule = "classic LZMA writer space: (a) all strings over {00,'a','b'} up to length n x all 225 property codes x both matchers x {EOS only, Size=len, Size=len+EOS} (Size=0 for the empty input); (b) longer heads with a compressible tail; (c) shape lists of depth 1-2 x DictCap x BufSize; (d) all compositions of 6-byte inputs into Write calls (+ zero-length writes); (e) size-contract histories: all sequences of <=4 Write lengths from {0,1,S-1,S,S+1} then Close for S in {0,1,5}. Oracle: call contract, library round trip, header size truthful. states = (mode, accepted vs Size, close result); transitions = per-call classes; non-trivial = distinct (mode, result, size class, history length)"
+	r.Rule = "classic LZMA writer space: (a) all strings over {00,'a','b'} up to length n x all 225 property codes x both matchers x {EOS only, Size=len, Size=len+EOS} (Size=0 for the empty input); (b) longer heads with a compressible tail; (c) shape lists of depth 1-2 x DictCap x BufSize; (d) all compositions of 6-byte inputs into Write calls (+ zero-length writes); (e) size-contract histories: all sequences of <=4 Write lengths from {0,1,S-1,S,S+1} then Close for S in {0,1,5}, and all sequences of <=3 lengths from {1,4096,S-4096,S-1,S,S+1} for S=9000 (above the 4096-byte dictionary). Oracle: call contract, library round trip, header size truthful. states = (mode, accepted vs Size, close result); transitions = per-call classes; non-trivial = distinct (mode, result, size class, history length)"
 	runLZW(r, "C06")
 	r.Assume("property sets with lc+lp>8 run on a seventh of the inputs (literal table of up to 6 MB per coder: cost bound)")
 }
